@@ -39,6 +39,7 @@ type traceCall struct {
 	status int
 	events map[string]time.Time
 	errs   map[string]bool
+	err    error // Stats().Error() at the time of the call
 }
 
 type recTracer struct {
@@ -63,6 +64,7 @@ func (t *recTracer) snap(kind string, c *app.RequestContext) {
 	}
 	tc.status = c.Response.StatusCode()
 	if ti := c.GetTraceInfo(); ti != nil {
+		tc.err = ti.Stats().Error()
 		for _, e := range c19Events {
 			if ev := ti.Stats().GetEvent(e.ev); ev != nil {
 				tc.events[e.name] = ev.Time()
@@ -105,57 +107,32 @@ func RunC19(ep *core.Episode) {
 	}
 	nw := core.NewNet(ep)
 	srv := NewSrv(ep, nw, o)
-	n := 1 + tp.Weighted("nreq", []int{2, 3, 3, 2, 1})
-	outcomes := make([]string, n)
-	ender := -1
-	for i := 0; i < n; i++ {
-		outcomes[i] = c19Outcomes[tp.Choose("outcome", len(c19Outcomes))]
-		if o.Stream && outcomes[i] == "toolarge" {
-			outcomes[i] = "ok" // streaming mode does not reject on the size limit
-		}
-		if outcomes[i] != "ok" && outcomes[i] != "panic" && outcomes[i] != "expect-ok" && outcomes[i] != "expect-rejected" && ender < 0 {
-			ender = i
-		}
+	// per-connection state; connections of one episode are served one after the other
+	type connState struct {
+		outcomes []string
+		handled  int
+		conn     *SrvConn
 	}
-	if ender >= 0 {
-		outcomes = outcomes[:ender+1]
-		n = ender + 1
-	}
-	endKind := "fin-idle"
-	if ender < 0 {
-		endKind = []string{"fin-idle", "rst-idle", "idle-timeout", "stray-fin"}[tp.Choose("end", 4)]
-		if returnMode && endKind == "idle-timeout" {
-			endKind = "fin-idle"
-		}
-		ep.Probe("end-" + endKind)
-	}
-	for _, oc := range outcomes {
-		ep.Probe("out-" + oc)
-	}
-	ep.Logf("outcomes=%v end=%s level=%d returnMode=%v stream=%v", outcomes, endKind, level, returnMode, o.Stream)
-	ep.Sig(fmt.Sprintf("%v|%s|%d|%v", outcomes, endKind, level, returnMode))
-
-	var conn *SrvConn
-	handled := 0
+	var cur *connState
 	srv.Eng.Use(recovery.Recovery(recovery.WithRecoveryHandler(func(c context.Context, ctx *app.RequestContext, err interface{}, stack []byte) {
 		ctx.AbortWithStatus(500)
 	})))
 	srv.Eng.Any("/*any", func(c context.Context, ctx *app.RequestContext) {
-		idx := handled
-		handled++
+		idx := cur.handled
+		cur.handled++
 		time.Sleep(time.Millisecond) // distinct stage timestamps on the fake clock
 		if o.Stream && ctx.Request.IsBodyStream() {
 			ctx.Request.Body()
 		}
 		oc := "ok"
-		if idx < len(outcomes) {
-			oc = outcomes[idx]
+		if idx < len(cur.outcomes) {
+			oc = cur.outcomes[idx]
 		}
 		switch oc {
 		case "panic":
 			panic("scripted handler panic")
 		case "write-error":
-			conn.A.FailWrite = &net.OpError{Op: "write", Net: "tcp", Err: &osSyscallErr{"write", syscall.EPIPE}}
+			cur.conn.A.FailWrite = &net.OpError{Op: "write", Net: "tcp", Err: &osSyscallErr{"write", syscall.EPIPE}}
 			ep.Fault("write-error")
 		case "hijack":
 			ctx.Hijack(func(c network.Conn) {})
@@ -170,260 +147,326 @@ func RunC19(ep *core.Episode) {
 	srv.Eng.ContinueHandler = func(h *protocol.RequestHeader) bool { return len(h.Peek("X-Reject")) == 0 }
 	srv.Start()
 
-	// connection + serving task (return-to-transport mode re-enters Serve)
-	a, b := nw.NewPair("c1")
-	a.Out.Auto = true
-	conn = &SrvConn{Name: "c1", A: a, B: b}
-	serves := 0
-	conn.Task = ep.S.Go("c1.srv", func() {
-		defer func() {
-			if r := recover(); r != nil {
-				conn.PanicVal = r
-				conn.PanicStk = stackString()
-				a.Close()
+	runConn := func(ci int) bool {
+		// the added sixth weight is the zero-request history: the peer connects and leaves without a byte
+		n := 1 + tp.Weighted("nreq", []int{2, 3, 3, 2, 1, 1})
+		if n == 6 {
+			n = 0
+			ep.Probe("zero-request-history")
+		}
+		outcomes := make([]string, n)
+		ender := -1
+		for i := 0; i < n; i++ {
+			outcomes[i] = c19Outcomes[tp.Choose("outcome", len(c19Outcomes))]
+			if o.Stream && outcomes[i] == "toolarge" {
+				outcomes[i] = "ok" // streaming mode does not reject on the size limit
 			}
-		}()
-		nc := standard.NewVerifConn(a, o.BufSize)
-		for {
-			serves++
-			conn.Err = srv.Eng.Serve(context.Background(), nc)
-			if !returnMode || conn.Err != nil || a.IsClosed() {
-				break
-			}
-			// netpoll-style: come back when there is something to read
-			if _, err := nc.Peek(1); err != nil {
-				nc.Close()
-				break
+			if outcomes[i] != "ok" && outcomes[i] != "panic" && outcomes[i] != "expect-ok" && outcomes[i] != "expect-rejected" && ender < 0 {
+				ender = i
 			}
 		}
-		conn.Returned = true
-	})
-	cl := NewClient(ep, conn)
-	cl.CloseWhenDone = false
-	delay := time.Millisecond
-	finHeaderCut := 0
-	continues := 0
-	for i, oc := range outcomes {
-		m := &wire.Msg{Proto: "HTTP/1.1", Method: "POST", Target: fmt.Sprintf("/t%d", i), Headers: []wire.Header{{K: "Host", V: "h"}}}
-		m.Body = core.PatternBytes(byte(i), 10+tp.Choose("blen", 500))
-		if oc == "toolarge" {
-			m.Body = core.PatternBytes(byte(i), 2001+tp.Choose("big", 3000))
+		if ender >= 0 {
+			outcomes = outcomes[:ender+1]
+			n = ender + 1
 		}
-		if oc == "malformed" {
-			m.Headers = append(m.Headers, wire.Header{K: "Bad Header", V: "x", Raw: "Bad Header : x\r\n"})
-		}
-		if oc == "expect-ok" || oc == "expect-rejected" {
-			m.Headers = append(m.Headers, wire.Header{K: "Expect", V: "100-continue"})
-			if oc == "expect-rejected" {
-				m.Headers = append(m.Headers, wire.Header{K: "X-Reject", V: "1"})
+		endKind := "fin-idle"
+		if ender < 0 {
+			endKind = []string{"fin-idle", "rst-idle", "idle-timeout", "stray-fin"}[tp.Choose("end", 4)]
+			if (returnMode || n == 0) && endKind == "idle-timeout" {
+				endKind = "fin-idle" // the idle timeout only guards the wait for a second or later request
 			}
+			ep.Probe("end-" + endKind)
 		}
-		data, bounds := m.Encode()
-		head := strings.Index(string(data), "\r\n\r\n") + 4
-		after := 0
-		if tp.Choose("pingpong", 2) == 1 {
-			after = i
+		for _, oc := range outcomes {
+			ep.Probe("out-" + oc)
 		}
-		cl.Methods = append(cl.Methods, "POST")
-		switch oc {
-		case "expect-ok":
-			continues++
-			cl.Sends = append(cl.Sends, Send{Data: data[:head], AfterResps: after, Delay: delay, Bounds: bounds, Label: "head-expect"}, Send{Data: data[head:], AfterContinues: continues, Delay: delay, Label: "body-after-100"})
-		case "expect-rejected":
-			// no 100 Continue arrives: the body is never sent
-			cl.Sends = append(cl.Sends, Send{Data: data[:head], AfterResps: after, Delay: delay, Bounds: bounds, Label: "head-expect-rejected"})
-		case "fin-header":
-			cut := 1 + tp.Choose("hcut", head-2)
-			finHeaderCut = cut
-			cl.Sends = append(cl.Sends, Send{Data: data[:cut], AfterResps: after, Delay: delay, Label: "partial-header"}, Send{Kind: "fin", Label: "fin"})
-			ep.Fault("fin-mid-header")
-		case "fin-body", "rst-body":
-			cut := head + tp.Choose("bcut", len(m.Body)-1)
-			cl.Sends = append(cl.Sends, Send{Data: data[:head], AfterResps: after, Delay: delay, Label: "head"}, Send{Data: data[head:cut], Delay: delay, Label: "partial-body"})
-			if oc == "fin-body" {
-				cl.Sends = append(cl.Sends, Send{Kind: "fin", Label: "fin"})
-				ep.Fault("fin-mid-body")
-			} else {
-				cl.Sends = append(cl.Sends, Send{Kind: "rst", Label: "rst"})
-				ep.Fault("rst-mid-body")
-			}
-		default:
-			cl.Sends = append(cl.Sends, Send{Data: data[:head], AfterResps: after, Delay: delay, Bounds: bounds, Label: "head"}, Send{Data: data[head:], Delay: delay, Label: "body"})
-		}
-	}
-	switch {
-	case ender >= 0:
-		// the server ends the connection itself (or the injected fault did)
-	case endKind == "fin-idle":
-		cl.Sends = append(cl.Sends, Send{Kind: "fin", AfterResps: n, Delay: delay, Label: "fin-idle"})
-	case endKind == "rst-idle":
-		cl.Sends = append(cl.Sends, Send{Kind: "rst", AfterResps: n, Delay: delay, Label: "rst-idle"})
-	case endKind == "idle-timeout":
-		ep.Fault("idle-timeout")
-	case endKind == "stray-fin":
-		// 1..3 stray bytes (e.g. a trailing CRLF from a sloppy client) and then the peer leaves:
-		// fewer than the 4 bytes the server waits for, so no request begins
-		stray := []string{"\r\n", "\r", "\n", "GE", "\r\n\r"}[tp.Choose("stray", 5)]
-		after := n
-		if tp.Choose("straypipelined", 2) == 1 {
-			after = 0 // right behind the last request, typically in the same segment
-		}
-		cl.Sends = append(cl.Sends, Send{Data: []byte(stray), AfterResps: after, Label: "stray"}, Send{Kind: "fin", AfterResps: n, Delay: delay, Label: "fin-after-stray"})
-		ep.Fault("stray-bytes")
-	}
-	ep.S.Horizon = 30 * time.Second
-	res := ep.S.Run(func() bool { return conn.Task.Done })
-	cl.Parse()
-	if CheckPanic(ep, "C19", conn) {
-		return
-	}
-	switch res {
-	case core.RunDeadlock:
-		ep.Fail("C19.per-request", "connection never ended: %d handled, %d responses, serve calls %d; %s", handled, len(cl.Resps), serves, ep.S.Describe())
-		return
-	case core.RunStepCap:
-		ep.Infra = "step cap"
-		return
-	case core.RunViolation:
-		return
-	}
+		ep.Logf("connection %d: outcomes=%v end=%s level=%d returnMode=%v stream=%v", ci, outcomes, endKind, level, returnMode, o.Stream)
+		ep.Sig(fmt.Sprintf("%v|%s|%d|%v", outcomes, endKind, level, returnMode))
 
-	// ---- oracle: automaton over the call log ----
-	calls := tr.calls
-	desc := func() string {
-		var s []string
-		for _, c := range calls {
-			s = append(s, c.kind+"("+c.path+")")
-		}
-		return strings.Join(s, " ")
-	}
-	open := false
-	pairs := 0
-	for i, c := range calls {
-		switch c.kind {
-		case "start":
-			if open {
-				ep.Fail("C19.alternate", "call %d is a second Start without a Finish in between: %s", i, desc())
-				return
+		// connection + serving task (return-to-transport mode re-enters Serve)
+		a, b := nw.NewPair(fmt.Sprintf("c%d", ci+1))
+		a.Out.Auto = true
+		conn := &SrvConn{Name: fmt.Sprintf("c%d", ci+1), A: a, B: b}
+		cur = &connState{outcomes: outcomes, conn: conn}
+		tr.calls = nil
+		serves := 0
+		conn.Task = ep.S.Go(conn.Name+".srv", func() {
+			defer func() {
+				if r := recover(); r != nil {
+					conn.PanicVal = r
+					conn.PanicStk = stackString()
+					a.Close()
+				}
+			}()
+			nc := standard.NewVerifConn(a, o.BufSize)
+			for {
+				serves++
+				conn.Err = srv.Eng.Serve(context.Background(), nc)
+				if !returnMode || conn.Err != nil || a.IsClosed() {
+					break
+				}
+				// netpoll-style: come back when there is something to read
+				if _, err := nc.Peek(1); err != nil {
+					nc.Close()
+					break
+				}
 			}
-			open = true
-		case "finish":
-			if !open {
-				ep.Fail("C19.no-orphan", "call %d is a Finish without a preceding unmatched Start (requests on the connection: %d, outcomes %v, end %s): %s", i, n, outcomes, endKind, desc())
-				return
+			conn.Returned = true
+		})
+		cl := NewClient(ep, conn)
+		cl.CloseWhenDone = false
+		delay := time.Millisecond
+		finHeaderCut := 0
+		continues := 0
+		for i, oc := range outcomes {
+			m := &wire.Msg{Proto: "HTTP/1.1", Method: "POST", Target: fmt.Sprintf("/t%d", i), Headers: []wire.Header{{K: "Host", V: "h"}}}
+			m.Body = core.PatternBytes(byte(i), 10+tp.Choose("blen", 500))
+			if oc == "toolarge" {
+				m.Body = core.PatternBytes(byte(i), 2001+tp.Choose("big", 3000))
 			}
-			open = false
-			pairs++
+			if oc == "malformed" {
+				m.Headers = append(m.Headers, wire.Header{K: "Bad Header", V: "x", Raw: "Bad Header : x\r\n"})
+			}
+			if oc == "expect-ok" || oc == "expect-rejected" {
+				m.Headers = append(m.Headers, wire.Header{K: "Expect", V: "100-continue"})
+				if oc == "expect-rejected" {
+					m.Headers = append(m.Headers, wire.Header{K: "X-Reject", V: "1"})
+				}
+			}
+			data, bounds := m.Encode()
+			head := strings.Index(string(data), "\r\n\r\n") + 4
+			after := 0
+			if tp.Choose("pingpong", 2) == 1 {
+				after = i
+			}
+			cl.Methods = append(cl.Methods, "POST")
+			switch oc {
+			case "expect-ok":
+				continues++
+				cl.Sends = append(cl.Sends, Send{Data: data[:head], AfterResps: after, Delay: delay, Bounds: bounds, Label: "head-expect"}, Send{Data: data[head:], AfterContinues: continues, Delay: delay, Label: "body-after-100"})
+			case "expect-rejected":
+				// no 100 Continue arrives: the body is never sent
+				cl.Sends = append(cl.Sends, Send{Data: data[:head], AfterResps: after, Delay: delay, Bounds: bounds, Label: "head-expect-rejected"})
+			case "fin-header":
+				cut := 1 + tp.Choose("hcut", head-2)
+				finHeaderCut = cut
+				cl.Sends = append(cl.Sends, Send{Data: data[:cut], AfterResps: after, Delay: delay, Label: "partial-header"}, Send{Kind: "fin", Label: "fin"})
+				ep.Fault("fin-mid-header")
+			case "fin-body", "rst-body":
+				cut := head + tp.Choose("bcut", len(m.Body)-1)
+				cl.Sends = append(cl.Sends, Send{Data: data[:head], AfterResps: after, Delay: delay, Label: "head"}, Send{Data: data[head:cut], Delay: delay, Label: "partial-body"})
+				if oc == "fin-body" {
+					cl.Sends = append(cl.Sends, Send{Kind: "fin", Label: "fin"})
+					ep.Fault("fin-mid-body")
+				} else {
+					cl.Sends = append(cl.Sends, Send{Kind: "rst", Label: "rst"})
+					ep.Fault("rst-mid-body")
+				}
+			default:
+				cl.Sends = append(cl.Sends, Send{Data: data[:head], AfterResps: after, Delay: delay, Bounds: bounds, Label: "head"}, Send{Data: data[head:], Delay: delay, Label: "body"})
+			}
 		}
-	}
-	if open {
-		ep.Fail("C19.alternate", "the last Start was never finished: %s", desc())
-		return
-	}
-	// how many requests certainly began to be read: every handled one, plus the
-	// ending request when its bytes could not be lost (a reset may destroy
-	// bytes the server had not looked at yet)
-	lower := handled
-	if ender >= 0 && handled == ender {
-		switch outcomes[ender] {
-		case "malformed", "toolarge", "fin-body":
-			lower++
-		case "fin-header":
-			// on a keep-alive connection the server waits for the first 4 bytes
-			// of the next request before it counts it as begun
-			if ender == 0 || finHeaderCut >= 4 {
+		switch {
+		case ender >= 0:
+			// the server ends the connection itself (or the injected fault did)
+		case endKind == "fin-idle":
+			cl.Sends = append(cl.Sends, Send{Kind: "fin", AfterResps: n, Delay: delay, Label: "fin-idle"})
+		case endKind == "rst-idle":
+			cl.Sends = append(cl.Sends, Send{Kind: "rst", AfterResps: n, Delay: delay, Label: "rst-idle"})
+		case endKind == "idle-timeout":
+			ep.Fault("idle-timeout")
+		case endKind == "stray-fin":
+			// 1..3 stray bytes (e.g. a trailing CRLF from a sloppy client) and then the peer leaves:
+			// fewer than the 4 bytes the server waits for, so no request begins
+			stray := []string{"\r\n", "\r", "\n", "GE", "\r\n\r"}[tp.Choose("stray", 5)]
+			after := n
+			if tp.Choose("straypipelined", 2) == 1 {
+				after = 0 // right behind the last request, typically in the same segment
+			}
+			cl.Sends = append(cl.Sends, Send{Data: []byte(stray), AfterResps: after, Label: "stray"}, Send{Kind: "fin", AfterResps: n, Delay: delay, Label: "fin-after-stray"})
+			ep.Fault("stray-bytes")
+		}
+		ep.S.Horizon = 30 * time.Second
+		res := ep.S.Run(func() bool { return conn.Task.Done })
+		cl.Parse()
+		if CheckPanic(ep, "C19", conn) {
+			return false
+		}
+		switch res {
+		case core.RunDeadlock:
+			ep.Fail("C19.per-request", "connection never ended: %d cur.handled, %d responses, serve calls %d; %s", cur.handled, len(cl.Resps), serves, ep.S.Describe())
+			return false
+		case core.RunStepCap:
+			ep.Infra = "step cap"
+			return false
+		case core.RunViolation:
+			return false
+		}
+
+		// ---- oracle: automaton over the call log ----
+		calls := tr.calls
+		desc := func() string {
+			var s []string
+			for _, c := range calls {
+				s = append(s, c.kind+"("+c.path+")")
+			}
+			return strings.Join(s, " ")
+		}
+		open := false
+		pairs := 0
+		for i, c := range calls {
+			switch c.kind {
+			case "start":
+				if open {
+					ep.Fail("C19.alternate", "call %d is a second Start without a Finish in between: %s", i, desc())
+					return false
+				}
+				open = true
+			case "finish":
+				if !open {
+					ep.Fail("C19.no-orphan", "call %d is a Finish without a preceding unmatched Start (requests on the connection: %d, outcomes %v, end %s): %s", i, n, outcomes, endKind, desc())
+					return false
+				}
+				open = false
+				pairs++
+			}
+		}
+		if open {
+			ep.Fail("C19.alternate", "the last Start was never finished: %s", desc())
+			return false
+		}
+		// how many requests certainly began to be read: every cur.handled one, plus the
+		// ending request when its bytes could not be lost (a reset may destroy
+		// bytes the server had not looked at yet)
+		lower := cur.handled
+		if ender >= 0 && cur.handled == ender {
+			switch outcomes[ender] {
+			case "malformed", "toolarge", "fin-body":
 				lower++
+			case "fin-header":
+				// on a keep-alive connection the server waits for the first 4 bytes
+				// of the next request before it counts it as begun
+				if ender == 0 || finHeaderCut >= 4 {
+					lower++
+				}
 			}
 		}
-	}
-	upper := n
-	if returnMode && endKind == "stray-fin" {
-		// return-to-transport mode: the transport re-enters the server for any
-		// readable byte, so the stray bytes legitimately begin a (failing) request
-		upper = n + 1
-	}
-	if pairs < lower || pairs > upper {
-		ep.Fail("C19.per-request", "%d Start/Finish pairs, want between %d and %d (%d handler invocations, outcomes %v, end %s): %s", pairs, lower, n, handled, outcomes, endKind, desc())
-		return
-	}
-	for i := 0; i < pairs && i < len(outcomes); i++ {
-		st, fin := calls[2*i], calls[2*i+1]
-		oc := outcomes[i]
-		// the finish carries this request's data
-		if i < handled {
-			if want := fmt.Sprintf("/t%d", i); fin.path != want {
-				ep.Fail("C19.per-request", "Finish of pair %d carries path %q, want %q (outcome %s): %s", i, fin.path, want, oc, desc())
-				return
+		upper := n
+		if n == 0 {
+			// the server is entered (and the tracer started) before the first byte is read: one pair that
+			// brackets nothing is how a connection without any request shows up
+			upper = 1
+		}
+		if returnMode && endKind == "stray-fin" {
+			// return-to-transport mode: the transport re-enters the server for any
+			// readable byte, so the stray bytes legitimately begin a (failing) request
+			upper = n + 1
+		}
+		if pairs < lower || pairs > upper {
+			ep.Fail("C19.per-request", "%d Start/Finish pairs, want between %d and %d (%d handler invocations, outcomes %v, end %s): %s", pairs, lower, n, cur.handled, outcomes, endKind, desc())
+			return false
+		}
+		for i := 0; i < pairs && i < len(outcomes); i++ {
+			st, fin := calls[2*i], calls[2*i+1]
+			oc := outcomes[i]
+			// the finish carries this request's data
+			if i < cur.handled {
+				if want := fmt.Sprintf("/t%d", i); fin.path != want {
+					ep.Fail("C19.per-request", "Finish of pair %d carries path %q, want %q (outcome %s): %s", i, fin.path, want, oc, desc())
+					return false
+				}
 			}
-		}
-		// no event of the previous request is visible when the pair starts
-		var stNames []string
-		for name := range st.events {
-			stNames = append(stNames, name)
-		}
-		sort.Strings(stNames) // map order must not reach the message
-		for _, name := range stNames {
-			if name != "HTTPStart" {
-				ep.Fail("C19.reset", "event %s is already present when pair %d starts", name, i)
-				return
+			// ... including its error: a request that was served normally finishes without one (at every trace level)
+			if (oc == "ok" || oc == "close" || oc == "expect-ok") && i < cur.handled && i < len(cl.Resps) && fin.err != nil {
+				ep.Fail("C19.per-request", "Finish of pair %d (outcome %s, connection %d) carries the error %v of another exchange", i, oc, ci, fin.err)
+				return false
 			}
-		}
-		if level == stats.LevelDisabled {
-			if len(fin.events) != 0 {
-				ep.Fail("C19.stages", "events recorded at level Disabled: %v", fin.events)
-				return
+			if st.err != nil {
+				ep.Fail("C19.reset", "an error (%v) is already recorded when pair %d of connection %d starts", st.err, i, ci)
+				return false
 			}
-			continue
-		}
-		for _, must := range []string{"HTTPStart", "HTTPFinish"} {
-			if _, ok := fin.events[must]; !ok {
-				ep.Fail("C19.stages", "pair %d (outcome %s) finished without event %s", i, oc, must)
-				return
+			// no event of the previous request is visible when the pair starts
+			var stNames []string
+			for name := range st.events {
+				stNames = append(stNames, name)
 			}
-		}
-		if level == stats.LevelBase {
-			if len(fin.events) != 2 {
-				ep.Fail("C19.stages", "level Base recorded detailed events: %v", fin.events)
-				return
+			sort.Strings(stNames) // map order must not reach the message
+			for _, name := range stNames {
+				if name != "HTTPStart" {
+					ep.Fail("C19.reset", "event %s is already present when pair %d starts", name, i)
+					return false
+				}
 			}
-			continue
-		}
-		// every started stage is finished, also on error outcomes
-		for _, sf := range [][2]string{{"ReadHeaderStart", "ReadHeaderFinish"}, {"ReadBodyStart", "ReadBodyFinish"}, {"ServerHandleStart", "ServerHandleFinish"}, {"WriteStart", "WriteFinish"}} {
-			_, s := fin.events[sf[0]]
-			_, f := fin.events[sf[1]]
-			if s != f {
-				ep.Fail("C19.stages", "pair %d (outcome %s): %s present=%v but %s present=%v", i, oc, sf[0], s, sf[1], f)
-				return
-			}
-		}
-		// causal order of what was recorded
-		var prev time.Time
-		prevName := ""
-		for _, e := range c19Events {
-			t, ok := fin.events[e.name]
-			if !ok {
+			if level == stats.LevelDisabled {
+				if len(fin.events) != 0 {
+					ep.Fail("C19.stages", "events recorded at level Disabled: %v", fin.events)
+					return false
+				}
 				continue
 			}
-			if t.Before(prev) {
-				ep.Fail("C19.stages", "pair %d (outcome %s): %s at %v is earlier than %s at %v", i, oc, e.name, t.Sub(time.Time{}), prevName, prev.Sub(time.Time{}))
-				return
+			for _, must := range []string{"HTTPStart", "HTTPFinish"} {
+				if _, ok := fin.events[must]; !ok {
+					ep.Fail("C19.stages", "pair %d (outcome %s) finished without event %s", i, oc, must)
+					return false
+				}
 			}
-			prev, prevName = t, e.name
+			if level == stats.LevelBase {
+				if len(fin.events) != 2 {
+					ep.Fail("C19.stages", "level Base recorded detailed events: %v", fin.events)
+					return false
+				}
+				continue
+			}
+			// every started stage is finished, also on error outcomes
+			for _, sf := range [][2]string{{"ReadHeaderStart", "ReadHeaderFinish"}, {"ReadBodyStart", "ReadBodyFinish"}, {"ServerHandleStart", "ServerHandleFinish"}, {"WriteStart", "WriteFinish"}} {
+				_, s := fin.events[sf[0]]
+				_, f := fin.events[sf[1]]
+				if s != f {
+					ep.Fail("C19.stages", "pair %d (outcome %s): %s present=%v but %s present=%v", i, oc, sf[0], s, sf[1], f)
+					return false
+				}
+			}
+			// causal order of what was recorded
+			var prev time.Time
+			prevName := ""
+			for _, e := range c19Events {
+				t, ok := fin.events[e.name]
+				if !ok {
+					continue
+				}
+				if t.Before(prev) {
+					ep.Fail("C19.stages", "pair %d (outcome %s): %s at %v is earlier than %s at %v", i, oc, e.name, t.Sub(time.Time{}), prevName, prev.Sub(time.Time{}))
+					return false
+				}
+				prev, prevName = t, e.name
+			}
+			if oc == "ok" || oc == "close" || oc == "hijack" || oc == "expect-ok" {
+				if len(fin.events) != len(c19Events) {
+					ep.Fail("C19.stages", "pair %d (outcome %s) is missing stage events: has %d of %d", i, oc, len(fin.events), len(c19Events))
+					return false
+				}
+				if !fin.events["ServerHandleFinish"].After(fin.events["ServerHandleStart"]) {
+					ep.Fail("C19.stages", "pair %d: handler took 1ms of simulated time but handle start/finish stamps are not increasing", i)
+					return false
+				}
+			}
 		}
-		if oc == "ok" || oc == "close" || oc == "hijack" || oc == "expect-ok" {
-			if len(fin.events) != len(c19Events) {
-				ep.Fail("C19.stages", "pair %d (outcome %s) is missing stage events: has %d of %d", i, oc, len(fin.events), len(c19Events))
-				return
-			}
-			if !fin.events["ServerHandleFinish"].After(fin.events["ServerHandleStart"]) {
-				ep.Fail("C19.stages", "pair %d: handler took 1ms of simulated time but handle start/finish stamps are not increasing", i)
-				return
-			}
+		if ci == 0 {
+			ep.Nontrivial = n >= 2 || len(ep.Faults) > 0
+			ep.Sample = map[string]interface{}{"outcomes": outcomes, "end": endKind, "trace_level": int(level), "return_to_transport": returnMode, "calls": desc()}
 		}
+		return true
+
 	}
-	ep.Nontrivial = n >= 2 || len(ep.Faults) > 0
-	ep.Sample = map[string]interface{}{"outcomes": outcomes, "end": endKind, "trace_level": int(level), "return_to_transport": returnMode, "calls": desc()}
+	if !runConn(0) {
+		return
+	}
+	// a second connection after the first has ended: it is served with the request context (and its trace
+	// info) that the first one gave back
+	if tp.Chance("secondconn", 1, 3) {
+		ep.Probe("second-connection")
+		runConn(1)
+	}
 }
 
 type osSyscallErr struct {
